@@ -543,6 +543,15 @@ func runC08(p *Program, r *Report) {
 			return true, ""
 		})
 	}
+	if f := p.Field("limitReader.n"); f != nil {
+		for _, fa := range p.FieldAccesses(f) {
+			if fa.Write || fa.Addr {
+				fname := p.FuncName(fa.Fn)
+				ok := fname == "limitReader.reset" || fname == "limitReader.Read"
+				r.Check("C08.writers", fname, "store limitReader.n", p.InstrPos(fa.Instr), ok, "the remaining allowance is written only by limitReader.reset (per message) and limitReader.Read (decrement): a limit change takes effect at the next message", fname)
+			}
+		}
+	}
 	c04eom(p, r, "C08.eom")
 	c07funnel(p, r, "C08.wrap")
 	c03taint(p, r, "C08.mem")
@@ -915,6 +924,7 @@ func runC19(p *Program, r *Report) {
 		})
 	}
 	c07ws(p, r, "C19.alias")
+	c07get(p, r, "C19.pool")
 	if c, ok := p.Main.Members["StatusInvalidFramePayloadData"].(*ssa.NamedConst); ok {
 		v, _ := constInt64(c.Value.Value)
 		r.Exists("C19.read", "close.go", "StatusInvalidFramePayloadData", "-", v == 1007, "StatusInvalidFramePayloadData = 1007", fmt.Sprint(v))
